@@ -105,8 +105,13 @@ def post(recs, merged):
     obs["reference_keys"] = len(keys)
     if dis:
         what, r = dis[0]
-        raise Harness("C10 reference disagrees with the harness classification in %d record(s); first: %s :: %s" %
-                      (len(dis), what, {k: (v if not isinstance(v, str) else v[:200]) for k, v in r.items()}))
+        msg = ("C10 reference disagrees with the harness classification in %d record(s); first: %s :: %s" %
+               (len(dis), what, {k: (v if not isinstance(v, str) else v[:200]) for k, v in r.items()}))
+        if merged["viols"] or out:
+            # the library already failed an oracle: report that, keep the disagreement as an observation
+            obs["reference_disagreements"] = dict(count=len(dis), first=msg[:600])
+        else:
+            raise Harness(msg)
     return out
 
 
